@@ -328,8 +328,6 @@ def run(ctx):
     # second opinion for the unquoted templates: bash
     unq = [i for i, c in enumerate(cases) if c.tag.startswith("unq") and c.ctx in ("arg", "arrelem")
            and not (c.ifs is not None and any(ch not in WS for ch in c.ifs))]
-    if ctx.quick and len(unq) > 600:
-        unq = ctx.rng.sample(unq, 600)
     svb = bash_check(cases, code_results, unq, specv, ctx)
     # extraction cross-check
     k = min(40, len(mfields))
